@@ -531,6 +531,55 @@ def python_mutators(pkgdir):
     return "\n".join(out)
 
 
+def python_changed(pkgdir):
+    """-> Lean text: the step sequence of AdapterLookupBase.changed (IR of ZI.Resub) and the obligation `changed_resubscribes`.
+    Fails closed: a statement that is none of the four kinds of step makes the obligation `False`."""
+    import ast, os
+    tree = ast.parse(open(os.path.join(pkgdir, "adapter.py")).read())
+    fn = None
+    for node in tree.body:
+        if isinstance(node, ast.ClassDef) and node.name == "AdapterLookupBase":
+            for m in node.body:
+                if isinstance(m, ast.FunctionDef) and m.name == "changed":
+                    fn = m
+    ops, unknown = [], []
+
+    def is_keys_snapshot(e):
+        return ast.unparse(e).replace(" ", "") in ("tuple(self._required.keys())", "tuple(self._required)", "list(self._required.keys())", "list(self._required)")
+    snapvars = set()
+    for st in (fn.body if fn else []):
+        src = ast.unparse(st).replace(" ", "")
+        if isinstance(st, ast.Expr) and isinstance(st.value, ast.Constant):
+            continue                                                        # docstring
+        if isinstance(st, ast.Assign) and len(st.targets) == 1 and isinstance(st.targets[0], ast.Name) and is_keys_snapshot(st.value):
+            snapvars.add(st.targets[0].id)
+            ops.append(".snapshot")
+        elif src == "self._required.clear()":
+            ops.append(".clearMarks")
+        elif src in ("super().changed(None)", "super().changed(ignored)", "super(AdapterLookupBase,self).changed(None)"):
+            ops.append(".drop")
+        elif isinstance(st, ast.For) and not st.orelse and ".unsubscribe(self)" in src and \
+                ((isinstance(st.iter, ast.Name) and st.iter.id in snapvars) or is_keys_snapshot(st.iter)):
+            body = "".join(ast.unparse(b).replace(" ", "") for b in st.body)
+            tgt = ast.unparse(st.target)
+            if body not in ("%s=%s()" % (tgt, tgt) + "if%sisnotNone:\n%s.unsubscribe(self)" % (tgt, tgt),):
+                unknown.append("loop body at line %d: %s" % (st.lineno, body[:80]))
+            if not isinstance(st.iter, ast.Name):
+                ops.append(".snapshot")                                    # iterating a copy made on the spot
+            ops.append(".unsubSnap")
+        else:
+            unknown.append("%s at line %d" % (type(st).__name__, st.lineno))
+    if fn is None:
+        unknown.append("no method AdapterLookupBase.changed")
+    out = ["def changedProg : List ZI.Resub.Op := [%s]" % ", ".join(ops)]
+    if unknown:
+        out.append("-- FAIL-CLOSED: unclassified statements in AdapterLookupBase.changed: %r" % (unknown,))
+        out.append("theorem changed_resubscribes : False := by decide")
+    else:
+        out.append("theorem changed_resubscribes : ZI.Resub.check changedProg = true ∧ changedProg.contains .drop = true := by decide")
+    return "\n".join(out)
+
+
 def extract(path, name):
     src = strip(open(path).read())
     args, body = func_body(src, name)
@@ -544,7 +593,7 @@ def extract(path, name):
 if __name__ == '__main__':
     path = sys.argv[1]
     import os
-    print("import ZI.Own\nimport ZI.OwnLeak\nimport ZI.Detach\nimport ZI.Mutator\nopen ZI.Own\nopen ZI.Own.Prog\nopen ZI.Own.Op")
+    print("import ZI.Own\nimport ZI.OwnLeak\nimport ZI.Detach\nimport ZI.Mutator\nimport ZI.Resub\nopen ZI.Own\nopen ZI.Own.Prog\nopen ZI.Own.Op")
     for fn in ['_lookup', '_lookupAll', '_subscriptions']:
         print("def dprog_%s : ZI.Detach.Prog := %s" % (fn.strip('_'), extract_detach(path, fn)))
         print("theorem detach_%s : ZI.Detach.check dprog_%s {} = true := by decide" % (fn.strip('_'), fn.strip('_')))
@@ -552,6 +601,7 @@ if __name__ == '__main__':
     print("def loopModes : List (String × Bool) := [%s]" % ", ".join('("%s", %s)' % (a, "true" if b else "false") for a, b in loops))
     print("theorem loops_snapshot : loopModes.all (·.2) = true ∧ loopModes.length ≥ 3 := by decide")
     print(python_mutators(os.path.dirname(path)))
+    print(python_changed(os.path.dirname(path)))
     fns = sys.argv[2:] or ['_subcache', '_getcache', '_lookup', '_lookup1', '_lookupAll', '_subscriptions', '_verify']
     print("open ZI.Own in")
     print("def ownProgs : List String := [%s]" % ", ".join('"%s"' % f for f in fns))
